@@ -298,6 +298,25 @@ def trace_values(trace, limit=60):
     return vals[-limit:]
 
 
+def any_values(trace):
+    """The solver's assignment as Kani's concrete playback wants it: the return values of the `kani::any_raw_*` calls, in
+    execution order, as little-endian byte vectors (same extraction rule as kani-driver's: assignment steps whose lhs is
+    the return-value symbol of a `kani::any_raw_*` function)."""
+    vals = []
+    for st in trace or []:
+        if st.get("stepType") != "assignment":
+            continue
+        lhs = st.get("lhs") or ""
+        fn = (st.get("sourceLocation") or {}).get("function") or ""
+        v = st.get("value") or {}
+        if lhs.startswith("goto_symex$$return_value") and fn.startswith("kani::any_raw_") and v.get("binary") and v.get("width"):
+            bits = v["binary"]
+            if len(bits) % 8:
+                bits = "0" * (8 - len(bits) % 8) + bits
+            vals.append([int(bits[i:i + 8], 2) for i in range(0, len(bits), 8)][::-1])
+    return vals
+
+
 def loop_unwindset(goto, per_function):
     """Maps {function pretty-name substring: bound} to CBMC's --unwindset argument using `cbmc --show-loops` on the final
     goto binary (loop ids are `<mangled function>.<n>`).  A per-loop bound only ever LOWERS the number of iterations explored;
@@ -405,6 +424,7 @@ def verify(name, info, timeout, mem_gb, workdir, want_trace=False):
         for p in failed:
             if p.get("trace"):
                 r["counterexample"] = {"for": p["description"], "values": trace_values(p["trace"])}
+                r["playback_vals"] = any_values(p["trace"])
                 break
     if unwind_fail:
         r["verdict"] = "INCONCLUSIVE"
